@@ -427,7 +427,17 @@ def _s8(ctx):
     for s_ in incs:
         conds = [(norm(h.ast.test), lab) for h, lab in cfg.control_conditions(cfg.node_of(s_)) if h.kind == "if"]
         ctx.check(("skip_initial", "true") in conds, R, st, s_, "the parent-side skipped-first credit is booked regardless of the holder's skip_initial flag", "booked under the holder's own skip_initial")
-    ctx.floor(R, 10)
+    # the compute's own first read of an output is skipped only under the compute's own flag: every *_skipped_first_* field it sets
+    # (the total, which feeds action counts, and the per-parent figure, which feeds latency) sits under `skip_initial`
+    ac = ctx.func(SY, "analyze_compute", R)
+    acfg = ctx.cfg(ac)
+    sets = [s_ for s_ in ac.stmts() for t, v, _ in assigned_targets(s_) if isinstance(t, ast.Attribute) and "skipped_first" in t.attr]
+    ctx.require(len(sets) >= 2, R, f"skipped-first fields set by analyze_compute: {len(sets)}")
+    for s_ in sets:
+        conds = [(norm(h.ast.test), lab) for h, lab in acfg.control_conditions(acfg.node_of(s_)) if h.kind == "if"]
+        ctx.check(("skip_initial", "true") in conds, R, ac, s_, f"`{norm(s_.targets[0]) if isinstance(s_, ast.Assign) else norm(s_)}` is set although the compute does not skip its first read of the output: "
+                  "the parent's per-unit read count (latency) or total (energy) is reduced by a read that does happen", "set only under the compute's skip_initial")
+    ctx.floor(R, 12)
 
 
 def check(ctx):
@@ -442,6 +452,7 @@ def check(ctx):
 
 
 VARIANTS = [
+    {"kind": "F", "name": "compute-per-parent-skip-unguarded", "rule": "C05-S8", "edits": [(SY, "            stats.max_per_parent_writes_to_parent = 1\n            if skip_initial:\n                stats.total_skipped_first_reads_to_parent = 1\n                stats.min_per_parent_skipped_first_reads_to_parent = 1", "            stats.max_per_parent_writes_to_parent = 1\n            stats.min_per_parent_skipped_first_reads_to_parent = 1\n            if skip_initial:\n                stats.total_skipped_first_reads_to_parent = 1")]},
     {"kind": "F", "name": "non-conforming-field", "rule": "C05-S1", "edits": [(STATS, "    max_occupancy: Any = field(default=0)\n    _n_loops_above", "    max_occupancy: Any = field(default=0)\n    peak_reads: Any = field(default=0)\n    _n_loops_above")]},
     {"kind": "F", "name": "max-branch-sums", "rule": "C05-S2", "edits": [(STATS, "                new.__dict__[k] = max_nonzero(v, other_v)", "                new.__dict__[k] = v + other_v")]},
     {"kind": "F", "name": "gather-raw-total", "rule": "C05-S3", "edits": [(EN, "actions[key].total += accesses.net_total_read_actions()", "actions[key].total += accesses.total_read_actions")]},
